@@ -138,6 +138,8 @@ def run_reuse_C12(rep, tier, seed):
         case = C.gen_case(g, "convex_qp", {"iteration_limit": 40, "collect_path": True}, scaling=(k % 2 == 0))
         if k % 2 == 1:
             case["cfg"]["precision"] = "Single"
+        if k % 4 == 2:
+            case["cfg"]["iteration_limit"] = 0          # the run ends where it starts
         ref = C.run(case, keep=True)
         msg = C.oracle_C12(case, ref)
         results.append((dict(case, variant="first"), keyof(msg), msg, "first/%s" % (ref.get("status") or ref.get("kind"))))
@@ -508,7 +510,8 @@ def run_C09(rep, tier, seed):
                 # the same failures): trial points in the region are rejected, silently, whatever is displayed
                 j = r.randrange(len(base["x0"]))
                 sgn = r.choice([-1.0, 1.0])
-                base["faults"] = {"region": {"name": "obj", "var": j, "sign": sgn, "thr": base["x0"][j] + sgn * r.choice([0.25, 1.0, 4.0])}}
+                base["faults"] = {"region": {"name": r.choice(["obj", "*", "*"]), "var": j, "sign": sgn,
+                                             "thr": base["x0"][j] + sgn * r.choice([0.25, 1.0, 4.0])}}
         ref = C.run(base)
         variants = [{"log_level": "DEBUG", "display_interval": 0.0}, {"log_level": "INFO", "display_interval": 0.0, "callbacks": True},
                     {"log_level": "WARNING", "display_interval": 0.0, "collect_path": True},
@@ -526,6 +529,29 @@ def run_C09(rep, tier, seed):
             if msg and rec.get("kind") == "crash":
                 key = "crash_%s_%s" % (rec.get("exc"), (rec.get("frame") or "").split(":")[-1])
             results.append((case, key, msg, "%s/%s" % (case["family"], rec.get("status") or rec.get("kind"))))
+    # a displayed row of a trial the CONTROLLER rejected (not a failed one) must not evaluate anything at the trial
+    # point: objective not evaluable beyond a threshold (derivatives fine), large first steps; quiet run vs every row shown
+    for i in range(90 if tier == "thorough" else 30):
+        tb = C.gen_case(g, r.choice(["convex_qp", "convex_qp", "nonlinear"]),
+                        {"iteration_limit": 40, "report_rcond": False, "collect_path": False,
+                         "lamb_init": r.choice([1e-3, 1e-2, 1e-1]), "step_control_type": ["DistanceRatio", "ResiduumRatio"]},
+                        scaling=False)
+        j = r.randrange(len(tb["x0"]))
+        sgn = r.choice([-1.0, 1.0])
+        tb["faults"] = {"region": {"name": "obj", "var": j, "sign": sgn, "thr": tb["x0"][j] + sgn * r.choice([0.25, 1.0])}}
+        tb["obs"] = {"log_level": "ERROR", "display_interval": 1e9, "callbacks": False, "collect_path": False, "report_rcond": False}
+        ref = C.run(tb)
+        case = copy_case(tb)
+        case["obs"] = dict(tb["obs"], display_interval=0.0, log_level="INFO")
+        case["variant"] = "rows_of_rejected_trials"
+        rec = C.run(case)
+        msg = C.same_run(ref, rec)
+        if msg:
+            msg = "perturbed: displaying every row changed the computation: %s" % msg
+        key = keyof(msg)
+        if msg and rec.get("kind") == "crash":
+            key = "crash_%s_%s" % (rec.get("exc"), (rec.get("frame") or "").split(":")[-1])
+        results.append((case, key, msg, "rejected_rows/%s" % (rec.get("status") or rec.get("kind"))))
     report(rep, "C09", "observer_twins", results)
 
 
